@@ -28,105 +28,34 @@ pub struct ConfigEntry {
     pub run: fn(&Spec, Shape, &mut Ch, &mut String) -> CaseOut,
 }
 
+/// Declares configuration marker types and a `configs()` function listing them.
+#[macro_export]
 macro_rules! configs {
     ($( $id:ident : $t:ty, $m:ty, $tr:ty, $groups:expr ;)*) => {
         $(
             pub struct $id;
-            impl Cfg for $id {
+            impl $crate::world::Cfg for $id {
                 type T = $t;
                 type M = $m;
                 type Tr = $tr;
                 const NAME: &'static str = stringify!($id);
             }
         )*
-        pub fn all_configs() -> Vec<ConfigEntry> {
+        pub fn configs() -> Vec<$crate::configs::ConfigEntry> {
             vec![
-                $( ConfigEntry {
+                $( $crate::configs::ConfigEntry {
                     name: stringify!($id),
                     groups: $groups,
-                    elem: <$t as Elem>::NAME,
-                    elem_size: <$t as Elem>::SIZE,
-                    elem_align: <$t as Elem>::ALIGN,
-                    tracked: <$t as Elem>::TRACKED,
-                    backend: <$m as crate::backend::Backend>::NAME,
-                    tset: <$tr as crate::tset::TSet>::NAME,
-                    flavours: <$m as crate::backend::Backend>::flavours,
-                    run: run_case::<$id>,
+                    elem: <$t as $crate::elem::Elem>::NAME,
+                    elem_size: <$t as $crate::elem::Elem>::SIZE,
+                    elem_align: <$t as $crate::elem::Elem>::ALIGN,
+                    tracked: <$t as $crate::elem::Elem>::TRACKED,
+                    backend: <$m as $crate::backend::Backend>::NAME,
+                    tset: <$tr as $crate::tset::TSet>::NAME,
+                    flavours: <$m as $crate::backend::Backend>::flavours,
+                    run: $crate::cases::run_case::<$id>,
                 }, )*
             ]
         }
     };
-}
-
-#[cfg(feature = "lib_alloc")]
-type Heap = any_vec::mem::Heap;
-type Stack<const S: usize> = any_vec::mem::Stack<S>;
-type StackN<const N: usize, const S: usize> = any_vec::mem::StackN<N, S>;
-
-#[cfg(feature = "lib_alloc")]
-configs! {
-    // layout sweep on the run-time multi backend
-    Tr0_Multi:    Tr0,    Multi, dyn Cloneable, G_LAYOUT;
-    Tr0a16_Multi: Tr0a16, Multi, dyn Cloneable, G_LAYOUT;
-    Tr1_Multi:    Tr1,    Multi, dyn Cloneable, G_LAYOUT;
-    Tr2_Multi:    Tr2,    Multi, dyn Cloneable, G_LAYOUT;
-    Tr3_Multi:    Tr3,    Multi, dyn Cloneable, G_LAYOUT | G_CORE;
-    Tr8_Multi:    Tr8,    Multi, dyn Cloneable, G_LAYOUT | G_CORE;
-    Tr12_Multi:   Tr12,   Multi, dyn Cloneable, G_LAYOUT;
-    Tr16_Multi:   Tr16,   Multi, dyn Cloneable, G_LAYOUT;
-    Tr24_Multi:   Tr24,   Multi, dyn Cloneable, G_LAYOUT | G_CORE;
-    Tr64_Multi:   Tr64,   Multi, dyn Cloneable, G_LAYOUT;
-    Tr160_Multi:  Tr160,  Multi, dyn Cloneable, G_LAYOUT | G_CORE;
-    Pl0_Multi:    Pl0,    Multi, dyn Cloneable, G_LAYOUT;
-    Pl1_Multi:    Pl1,    Multi, dyn Cloneable, G_LAYOUT | G_CORE;
-    Pl3_Multi:    Pl3,    Multi, dyn Cloneable, G_LAYOUT;
-    Pl8_Multi:    Pl8,    Multi, dyn Cloneable, G_LAYOUT;
-    Pl16_Multi:   Pl16,   Multi, dyn Cloneable, G_LAYOUT;
-    Pl24_Multi:   Pl24,   Multi, dyn Cloneable, G_LAYOUT;
-    Pl160_Multi:  Pl160,  Multi, dyn Cloneable, G_LAYOUT;
-    // directly typed backends
-    Tr8_Heap:     Tr8,    Heap,   dyn Cloneable, G_BACKEND | G_CORE | G_RAW;
-    Tr24_Heap:    Tr24,   Heap,   dyn Cloneable, G_BACKEND | G_RAW;
-    Pl3_Heap:     Pl3,    Heap,   dyn Cloneable, G_BACKEND | G_RAW;
-    Tr0_Heap:     Tr0,    Heap,   dyn Cloneable, G_BACKEND | G_RAW;
-    Tr1_Heap:     Tr1,    Heap,   dyn Cloneable, G_RAW;
-    Tr16_Heap:    Tr16,   Heap,   dyn Cloneable, G_RAW;
-    Tr160_Heap:   Tr160,  Heap,   dyn Cloneable, G_RAW;
-    Pl8_Heap:     Pl8,    Heap,   dyn Cloneable, G_RAW;
-    Tr8_Empty:    Tr8,    any_vec::mem::Empty, dyn Cloneable, G_RAW;
-    Tr0_Empty:    Tr0,    any_vec::mem::Empty, dyn None, G_RAW;
-    Pl3_Empty:    Pl3,    any_vec::mem::Empty, dyn Cloneable + Send + Sync, G_RAW;
-    Tr8_Guard:    Tr8,    GuardB, dyn Cloneable, G_BACKEND;
-    Tr3_Guard:    Tr3,    GuardB, dyn Cloneable, G_BACKEND;
-    Tr8_Fixed:    Tr8,    FixedB, dyn Cloneable, G_BACKEND;
-    Tr8_Stack:    Tr8,    Stack<40>,      dyn Cloneable, G_BACKEND | G_STACK;
-    Tr24_Stack:   Tr24,   Stack<100>,     dyn Cloneable, G_BACKEND | G_STACK;
-    Pl3_Stack:    Pl3,    Stack<17>,      dyn Cloneable, G_BACKEND | G_STACK;
-    Tr0_Stack:    Tr0,    Stack<8>,       dyn Cloneable, G_BACKEND | G_STACK;
-    Tr1_Stack:    Tr1,    Stack<6>,       dyn Cloneable, G_BACKEND | G_STACK;
-    Tr8_StackN:   Tr8,    StackN<4, 40>,  dyn Cloneable, G_BACKEND | G_STACK;
-    Tr24_StackN:  Tr24,   StackN<3, 72>,  dyn Cloneable, G_BACKEND | G_STACK;
-    Pl3_StackN:   Pl3,    StackN<5, 16>,  dyn Cloneable, G_BACKEND | G_STACK;
-    Tr0_StackN:   Tr0,    StackN<4, 0>,   dyn Cloneable, G_BACKEND | G_STACK;
-    // constraint sweep
-    Tr8_Heap_None:  Tr8, Heap, dyn None,                    G_CONSTRAINT | G_RAW;
-    Tr8_Heap_Send:  Tr8, Heap, dyn Send,                    G_CONSTRAINT | G_RAW;
-    Tr8_Heap_Sync:  Tr8, Heap, dyn Sync,                    G_CONSTRAINT | G_RAW;
-    Tr8_Heap_SS:    Tr8, Heap, dyn Send + Sync,             G_CONSTRAINT | G_RAW;
-    Tr8_Heap_CSend: Tr8, Heap, dyn Cloneable + Send,        G_CONSTRAINT | G_RAW;
-    Tr8_Heap_CSync: Tr8, Heap, dyn Cloneable + Sync,        G_CONSTRAINT | G_RAW;
-    Tr8_Heap_CSS:   Tr8, Heap, dyn Cloneable + Send + Sync, G_CONSTRAINT | G_RAW;
-}
-
-#[cfg(not(feature = "lib_alloc"))]
-configs! {
-    Tr8_Stack:    Tr8,    Stack<40>,      dyn Cloneable, G_BACKEND | G_STACK;
-    Tr24_Stack:   Tr24,   Stack<100>,     dyn Cloneable, G_BACKEND | G_STACK;
-    Pl3_Stack:    Pl3,    Stack<17>,      dyn Cloneable, G_BACKEND | G_STACK;
-    Tr0_Stack:    Tr0,    Stack<8>,       dyn Cloneable, G_BACKEND | G_STACK;
-    Tr1_Stack:    Tr1,    Stack<6>,       dyn Cloneable, G_BACKEND | G_STACK;
-    Tr8_StackN:   Tr8,    StackN<4, 40>,  dyn Cloneable, G_BACKEND | G_STACK;
-    Tr24_StackN:  Tr24,   StackN<3, 72>,  dyn Cloneable, G_BACKEND | G_STACK;
-    Pl3_StackN:   Pl3,    StackN<5, 16>,  dyn Cloneable, G_BACKEND | G_STACK;
-    Tr0_StackN:   Tr0,    StackN<4, 0>,   dyn Cloneable, G_BACKEND | G_STACK;
 }
